@@ -184,13 +184,20 @@ def _fn_source(prog: dict, f: int, indent: str, groups: List[List[int]], with_po
         lines.append("{}    H.body({}, self, None)".format(indent, f))
         lines.append("{}    return 'K'".format(indent))
     elif kind == "setattr":
-        lines.append("{}def __setattr__(self, name, x):".format(indent))
+        # (defs_via_alias: the special method is written under an ordinary name and bound to the special name afterwards)
+        sname = "_guarded_set" if prog.get("defs_via_alias") else "__setattr__"
+        lines.append("{}def {}(self, name, x):".format(indent, sname))
         lines.append("{}    H.body({}, self, x)".format(indent, f))
         lines.append("{}    object.__setattr__(self, name, x)".format(indent))
+        if sname != "__setattr__":
+            lines.append("{}__setattr__ = {}".format(indent, sname))
     elif kind == "init":
+        iname = "_setup" if prog.get("defs_via_alias") else "__init__"
         lines += [indent + d for d in decos + snap_decos + post_decos]
-        lines.append("{}def __init__(self, x):".format(indent))
+        lines.append("{}def {}(self, x):".format(indent, iname))
         lines.append("{}    H.body({}, self, x)".format(indent, f))
+        if iname != "__init__":
+            lines.append("{}__init__ = {}".format(indent, iname))
     elif kind == "new":
         lines += [indent + d for d in decos + snap_decos + post_decos]
         lines.append("{}def __new__(cls, x):".format(indent))
